@@ -1180,7 +1180,9 @@ class MaskedImage(Image):
             transform,
             warp_landmarks=warp_landmarks,
             mode=mode,
-            cval=cval,
+            # cval is a fill value for the pixels; where there is no source
+            # pixel there is nothing to be valid
+            cval=False,
         )
         # efficiently turn the Image into a MaskedImage, attaching the
         # landmarks
